@@ -45,7 +45,9 @@ type envOpts struct {
 	DC              string
 	Tokens          []string
 	Peers           []proxy.PeerConfig
-	DownHosts       []int // hosts stopped before the proxy connects (still members)
+	DownHosts       []int             // hosts stopped before the proxy connects (still members)
+	Cluster         *fakecass.Cluster // reuse this cluster (several proxies against one backend); not closed by env.Close
+	BackendDC       string
 }
 
 type env struct {
@@ -55,6 +57,7 @@ type env struct {
 	cancel  context.CancelFunc
 	ln      net.Listener
 	served  chan struct{}
+	shared  bool
 	clients []*rawcli.Client
 }
 
@@ -93,14 +96,25 @@ func (o *envOpts) defaults() {
 
 func startEnv(o envOpts) (*env, error) {
 	o.defaults()
-	cl, err := fakecass.New(o.Hosts)
-	if err != nil {
-		return nil, err
+	cl := o.Cluster
+	if cl == nil {
+		var err error
+		if cl, err = fakecass.New(o.Hosts); err != nil {
+			return nil, err
+		}
+		cl.MaxVersion = o.BackendMax
+		cl.DSEVersion = o.DSE
+		if o.BackendDC != "" {
+			cl.DC = o.BackendDC
+		}
+		for _, k := range o.Keyspaces {
+			cl.Keyspaces[k] = true
+		}
 	}
-	cl.MaxVersion = o.BackendMax
-	cl.DSEVersion = o.DSE
-	for _, k := range o.Keyspaces {
-		cl.Keyspaces[k] = true
+	closeCluster := func() {
+		if o.Cluster == nil {
+			cl.Close()
+		}
 	}
 	for _, h := range o.DownHosts {
 		cl.Host(h).Stop()
@@ -137,18 +151,18 @@ func startEnv(o envOpts) (*env, error) {
 	p := proxy.NewProxy(ctx, cfg)
 	if err := p.Connect(); err != nil {
 		cancel()
-		cl.Close()
+		closeCluster()
 		return nil, fmt.Errorf("proxy connect: %w", err)
 	}
 	ln, err := net.Listen("tcp", "127.0.0.1:0")
 	if err != nil {
 		cancel()
-		cl.Close()
+		closeCluster()
 		return nil, err
 	}
 	served := make(chan struct{})
 	go func() { _ = p.Serve(ln); close(served) }()
-	return &env{Cluster: cl, Proxy: p, Addr: ln.Addr().String(), cancel: cancel, ln: ln, served: served}, nil
+	return &env{Cluster: cl, Proxy: p, Addr: ln.Addr().String(), cancel: cancel, ln: ln, served: served, shared: o.Cluster != nil}, nil
 }
 
 func contains(xs []int, x int) bool {
@@ -174,7 +188,9 @@ func (e *env) Close() {
 	}
 	_ = e.Proxy.Close()
 	e.cancel()
-	e.Cluster.Close()
+	if !e.shared {
+		e.Cluster.Close()
+	}
 }
 
 // client connects a raw client and performs STARTUP.
